@@ -494,6 +494,10 @@ def select(prop, tier, only=None):
     hs = [h for h in discover_harnesses() if prop in h['props']]
     if tier == 'quick':
         hs = [h for h in hs if h['tier'] == 'quick']
+    elif not only:
+        # tier=experimental: harnesses that were written but do not finish inside a cap on this machine; they are
+        # kept in the files (and named in DESIGN.md) but belong to no registered command
+        hs = [h for h in hs if h['tier'] in ('quick', 'thorough')]
     if only:
         hs = [h for h in hs if only in h['name']]
     return hs
